@@ -110,6 +110,9 @@ func genLines(r interface{ IntN(int) int }, n int, includes []string, damage boo
 				if r.IntN(6) == 0 {
 					l = strings.Replace(l, "$INCLUDE", []string{"$include", "$Include", "$INCLUDE\t"}[r.IntN(3)], 1)
 				}
+				if r.IntN(12) == 0 {
+					l += " )" // a parenthesis that closes nothing, after the file name or the origin
+				}
 				out = append(out, l)
 			}
 		case x < 93:
@@ -859,8 +862,8 @@ func strayParen(lines []string) int {
 			continue
 		}
 		up := strings.ToUpper(l)
-		if strings.Contains(l, "$") && !(strings.HasPrefix(up, "$TTL ") || strings.HasPrefix(up, "$ORIGIN ")) {
-			continue // $INCLUDE and $GENERATE have their own grammar
+		if strings.Contains(l, "$") && !(strings.HasPrefix(up, "$TTL ") || strings.HasPrefix(up, "$ORIGIN ") || strings.HasPrefix(up, "$INCLUDE ")) {
+			continue // $GENERATE has its own grammar
 		}
 		if strings.Count(l, ")") > strings.Count(l, "(") && len(strings.Fields(l)) >= 3 {
 			// make sure the first unmatched one is reached before any "("
